@@ -229,6 +229,10 @@ func (vc *VC) applyContract(st *State, call *ast.CallExpr, c *Contract, callee *
 	// under a havocked heap: the callee may run them at any point)
 	for _, cb := range c.Callbacks {
 		if fv := names[cb.Param]; fv != nil && fv.Fn != nil && fv.Fn.Lit != nil {
+			if vc.contract != nil && vc.contract.NoCallbacks {
+				vc.depsUsed["closure body passed to "+shortKey(c)+" not verified (nocallbacks)"] = true
+				continue
+			}
 			vc.checkCallback(st, fv.Fn, cb, pi, c)
 		}
 	}
